@@ -1850,8 +1850,21 @@ class Model:
             msg = f"Surrogate '{name}' not found in model"
             raise KeyError(msg)
 
+        old_outputs = list(self._surrogates[name].outputs)
         if surrogate is None:
             surrogate = self._surrogates[name]
+
+        # Check the new output names before anything is changed
+        new_outputs = list(surrogate.outputs if outputs is None else outputs)
+        for i, output in enumerate(new_outputs):
+            if output == "time":
+                msg = "time is a protected variable for time"
+                raise KeyError(msg)
+            if output in new_outputs[:i] or (
+                output in self._ids and output not in old_outputs
+            ):
+                msg = f"Model already contains {self._ids.get(output, 'surrogate')} called '{output}'"
+                raise NameError(msg)
 
         # Update existing / passed surrogate (other args always take precendece)
         if args is not None:
@@ -1862,7 +1875,7 @@ class Model:
             surrogate.stoichiometries = stoichiometries
 
         # Update ids
-        for i in self._surrogates[name].outputs:
+        for i in old_outputs:
             self._remove_id(name=i)
         for i in surrogate.outputs:
             self._insert_id(name=i, ctx="surrogate")
